@@ -172,3 +172,8 @@ def check_nocomment(case, ctx):
 
 
 SUBS.append(Sub('nocomment', check_nocomment, enumerate=nocomment_cases, shards_quick=1, shards_thorough=1))
+
+
+from vlib.reported import reported_sub  # noqa: E402
+
+SUBS.append(reported_sub('C02'))
